@@ -43,7 +43,7 @@ pub struct Built {
     pub compile_errors: Vec<drive::CompileError>,
 }
 
-pub fn build_corpus(tag: &str, seed: u64, profile: Profile, programs: usize, shards: usize, darling_only: bool) -> Built {
+pub fn build_corpus(tag: &str, seed: u64, profile: Profile, programs: usize, shards: usize, darling_only: bool, suggestions: bool) -> Built {
     let mut rng = Rng::for_stream(seed, 3, 0);
     let mut g = Gen::new(&mut rng, profile.clone());
     let mut tops = vec![];
@@ -69,7 +69,7 @@ pub fn build_corpus(tag: &str, seed: u64, profile: Profile, programs: usize, sha
     }
     let dir = PathBuf::from(format!("/verif/work/corpus/{tag}"));
     let target = PathBuf::from(format!("/verif/work/target-corpus-{tag}"));
-    let mut corpus = drive::Corpus::write(&dir, sh, darling_only);
+    let mut corpus = drive::Corpus::write(&dir, sh, darling_only, suggestions);
     let compile_errors = match corpus.build(&target) {
         Ok(e) => e,
         Err(e) => vfcommon::die(&e),
@@ -101,6 +101,8 @@ struct Case {
     shape: String,
     /// cases of one group are renderings of the same item sequence: their replies must agree
     group: Option<u64>,
+    /// the item list behind a `from_list` input, for re-sending with a name substituted (C17)
+    items: Option<Vec<Item>>,
 }
 
 fn mistakes_count(rng: &mut Rng, prop: &str) -> usize {
@@ -143,6 +145,7 @@ fn make_case(recvs: &[Recv], r: &Recv, rng: &mut Rng, prop: &str) -> Option<Case
                     mistakes,
                     shape: format!("struct/list/{}", items.len().min(6)),
                     group: None,
+                    items: Some(items.clone()),
                 })
             } else {
                 let n = items.len();
@@ -163,6 +166,7 @@ fn make_case(recvs: &[Recv], r: &Recv, rng: &mut Rng, prop: &str) -> Option<Case
                     mistakes,
                     shape: format!("struct/meta/{}", n.min(6)),
                     group: None,
+                    items: None,
                 })
             }
         }
@@ -191,6 +195,7 @@ fn make_case(recvs: &[Recv], r: &Recv, rng: &mut Rng, prop: &str) -> Option<Case
                 mistakes,
                 shape: "enum/meta".into(),
                 group: None,
+                    items: None,
             })
         }
         (Shape::Struct(_), tr) => {
@@ -228,6 +233,7 @@ fn make_case(recvs: &[Recv], r: &Recv, rng: &mut Rng, prop: &str) -> Option<Case
                 mistakes,
                 shape: format!("element/{:?}/{}", tr, attrs.len().min(5)),
                 group: None,
+                    items: None,
             })
         }
         _ => None,
@@ -245,6 +251,8 @@ struct Plan {
     min_nontrivial: u64,
     /// aspects of the generic judge that count as violations of the property being run
     adopt: &'static [&'static str],
+    /// build the corpus with darling's `suggestions` feature
+    suggestions: bool,
 }
 
 fn general_cases(recvs: &[Recv], r: &Recv, rng: &mut Rng, prop: &str, _iter: usize) -> Vec<Case> {
@@ -263,6 +271,7 @@ fn run_general(args: &Args, prop: &'static str) -> i32 {
             cases: general_cases,
             min_nontrivial: 200,
             adopt: &[],
+            suggestions: true,
         },
     )
 }
@@ -340,6 +349,7 @@ fn partition_cases(recvs: &[Recv], r: &Recv, rng: &mut Rng, _prop: &str, iter: u
             mistakes: mistakes.clone(),
             shape: format!("partition/{:?}/{}attrs/{}fwd", r.tr, attrs.len().min(6), ev.forwarded.len().min(3)),
             group: Some(iter as u64),
+            items: None,
         });
     }
     out
@@ -468,6 +478,7 @@ fn enum_grid_cases(recvs: &[Recv], r: &Recv, rng: &mut Rng, _prop: &str, iter: u
             mistakes: vec![],
             shape,
             group: None,
+                    items: None,
         }];
     }
     let item = item.unwrap();
@@ -487,6 +498,7 @@ fn enum_grid_cases(recvs: &[Recv], r: &Recv, rng: &mut Rng, _prop: &str, iter: u
         mistakes: vec![],
         shape,
         group: None,
+                    items: None,
     }]
 }
 
@@ -517,7 +529,8 @@ fn run_corpus(args: &Args, prop: &'static str, plan: Plan) -> i32 {
     let shards = 16;
     let case_fn = plan.cases;
     let adopt = plan.adopt;
-    let built = build_corpus(plan.tag, args.seed, plan.profile.clone(), programs, shards, false);
+    let suggestions = plan.suggestions;
+    let built = build_corpus(plan.tag, args.seed, plan.profile.clone(), programs, shards, false, suggestions);
     let mut total = Collector::new();
     total.max_samples = 8;
     // compile failures are C20's subject; here they only shrink the corpus
@@ -582,7 +595,7 @@ fn run_corpus(args: &Args, prop: &'static str, plan: Plan) -> i32 {
                             if let Some(g) = case.group {
                                 group_replies.push((g, stripped(&reply), case.src.clone()));
                             }
-                            let j = judge(&case.expected, &obs, &case.ranges, &case.attr_ranges, true);
+                            let j = judge(&case.expected, &obs, &case.ranges, &case.attr_ranges, suggestions);
                             for f in &j.findings {
                                 if f.prop != prop && !adopt.contains(&f.prop) {
                                     c.count(&format!("other_aspect.{}", f.prop));
@@ -590,6 +603,43 @@ fn run_corpus(args: &Args, prop: &'static str, plan: Plan) -> i32 {
                                 }
                                 let src = rsrc.get_or_insert_with(|| recv_source(recvs, *id)).clone();
                                 c.violation(format!("{}:{}", prop, f.class), format!("{} on `{}`: {}", r.name(), case.src, f.what), witness(&src, case.entry, &case.src, &case.expected, &reply));
+                            }
+                            // C17, soundness by execution: the suggested name, put in place of the rejected
+                            // one, must be accepted at that very position
+                            if prop == "C17" {
+                                if let (Some(items), Observed::Err { leaves, .. }, Outcome::Err(exp)) = (&case.items, &obs, &case.expected) {
+                                    for e in exp.iter().filter(|e| e.kind == LeafKind::Unknown && e.path.is_empty()) {
+                                        let Where::Item(item_id) = e.at else { continue };
+                                        let Some(o) = leaves.iter().find(|o| o.family == 'U' && o.path.is_empty() && o.named.as_deref() == Some(e.name.as_str()) && o.suggestion.is_some()) else { continue };
+                                        let y = o.suggestion.clone().unwrap();
+                                        let mut items2 = items.clone();
+                                        fn rename(items: &mut [Item], id: usize, to: &str) {
+                                            for it in items.iter_mut() {
+                                                if it.id == id {
+                                                    it.name = to.to_string();
+                                                }
+                                                if let Kind::List(inner) = &mut it.kind {
+                                                    rename(inner, id, to);
+                                                }
+                                            }
+                                        }
+                                        rename(&mut items2, item_id, &y);
+                                        let mut src2 = String::new();
+                                        let mut rg = Ranges::default();
+                                        render_items(&items2, &mut src2, &mut rg, 0, false);
+                                        if let drive::Reply::Value(v2) = drv.call(*id, "from_list", &src2) {
+                                            c.count("suggestions_resent");
+                                            let still_unknown = match parse_reply(&v2) {
+                                                Observed::Err { leaves, .. } => leaves.iter().any(|l| l.family == 'U' && l.named.as_deref() == Some(y.as_str())),
+                                                _ => false,
+                                            };
+                                            if still_unknown {
+                                                let src = rsrc.get_or_insert_with(|| recv_source(recvs, *id)).clone();
+                                                c.violation("C17:suggested-name-not-accepted", format!("{}: `{}` suggests `{y}` for `{}`, but `{src2}` still reports `{y}` as unknown", r.name(), case.src, e.name), json!({"receiver": src, "input": case.src, "resent": src2, "reply": v2}));
+                                            }
+                                        }
+                                    }
+                                }
                             }
                             let ok = j.expected_ok;
                             c.count(if ok { "inputs.mistake_free" } else { "inputs.with_mistakes" });
@@ -794,6 +844,7 @@ fn main() {
                     cases: partition_cases,
                     min_nontrivial: 200,
                     adopt: &[],
+            suggestions: true,
                 },
             ),
             Some("enum") => run_corpus(
@@ -807,11 +858,29 @@ fn main() {
                     cases: enum_grid_cases,
                     min_nontrivial: 200,
                     adopt: &[],
+            suggestions: true,
                 },
             ),
             _ => run_general(&args, "C07"),
         },
-        "C17" => run_general(&args, "C17"),
+        "C17" => match args.extra.get("profile").map(|s| s.as_str()) {
+            Some("nosuggest") => run_corpus(
+                &args,
+                "C17",
+                Plan {
+                    tag: "nosuggest",
+                    profile: profile_general(),
+                    programs: (112, 700),
+                    per_program: (80, 300),
+                    cases: general_cases,
+                    min_nontrivial: 200,
+                    // with the feature off everything but the suggestion must stay identical
+                    adopt: &["C01", "C02"],
+                    suggestions: false,
+                },
+            ),
+            _ => run_general(&args, "C17"),
+        },
         "C08" => run_corpus(
             &args,
             "C08",
@@ -823,6 +892,7 @@ fn main() {
                 cases: partition_cases,
                 min_nontrivial: 200,
                 adopt: &["C01", "C02"],
+                suggestions: true,
             },
         ),
         "C09" => run_corpus(
@@ -836,6 +906,7 @@ fn main() {
                 cases: enum_grid_cases,
                 min_nontrivial: 200,
                 adopt: &["C01", "C02"],
+                suggestions: true,
             },
         ),
         other => vfcommon::die(&format!("corpus: no monitor for {other}")),
